@@ -2,10 +2,20 @@ from props import COMMON_TRUST
 
 
 def router_nontrivial(tok, res):
-    if tok[0] in ("get", "mget"):
+    if tok[0] in ("get", "mget", "hreq"):
         return res != "none"
     if tok[0] in ("add", "madd"):
         return res == "conflict"
+    if tok[0] == "spell":
+        return tok[2] == "1" or tok[3] != "-"
+    return False
+
+
+def vreg_nontrivial(tok, res):
+    if tok[0] in ("hreq", "creq", "sreq"):
+        return res != "none"
+    if tok[0] == "run":
+        return res not in ("ok", "busy")
     return False
 
 
@@ -18,29 +28,48 @@ PROP = {
             "Frp.C06.add_conflict_iff", "Frp.C06.add_conflict_unchanged", "Frp.C06.add_ok_mem",
             "Frp.C06.del_mem", "Frp.C06.del_get_other", "Frp.C06.del_not_returned",
             "Frp.C06.wildLevels_eq", "Frp.C06.holdsOn_sound", "Frp.C06.model_holdsOn",
+            # the server-side registration layer (Run / Close of http, https, tcpmux proxies, http groups)
+            "Frp.C06.reg_inv_reachable", "Frp.C06.reg_table_eq_live", "Frp.C06.reg_served",
+            "Frp.C06.reg_lookup_most_specific", "Frp.C06.reg_run_ok", "Frp.C06.reg_refused_unchanged",
+            "Frp.C06.reg_close_hs", "Frp.C06.reg_close_effective",
+            # host spellings (case, trailing dot, port suffix)
+            "Frp.C06.canonicalHost_spell", "Frp.C06.spellHoldsOn_sound", "Frp.C06.model_spellHolds",
+            "Frp.C06.spelled_lookup_holds",
         ],
         "engines": [
             {"name": "router", "quick_n": 20000, "thorough_n": 100000, "thorough_seeds": 6,
              "nontrivial": router_nontrivial,
-             "result_class": lambda r: "hit" if r.isdigit() else r[:10]},
+             "result_class": lambda r: "hit" if r.isdigit() else ("host" if r.startswith("x") else r[:10])},
+            {"name": "vreg", "quick_n": 8000, "thorough_n": 40000, "thorough_seeds": 6,
+             "nontrivial": vreg_nontrivial,
+             "result_class": lambda r: "hit" if r.isdigit() else ("dump" if r.startswith("http[") else r[:10])},
         ],
-        "rule": "router engine: generated add/del/get histories over an overlap-rich alphabet; a case is "
-                "non-trivial when a lookup returns a route or a registration is refused as duplicate; "
-                "distinct = distinct (op line, result) pairs",
+        "rule": "router engine: generated add/del/get histories over an overlap-rich alphabet, real requests through "
+                "ServeHTTP with Host spellings combining letter case, trailing dot and port suffix; vreg engine: generated "
+                "histories of real proxy Run/Close (http incl. groups, https, tcpmux; multi-domain, multi-location, "
+                "subdomain, colliding names) interleaved with real HTTP requests, TLS ClientHellos and CONNECTs and table "
+                "dumps; a case is non-trivial when a request reaches a proxy / a lookup returns a route, a registration is "
+                "refused, or a spelling carries a dot or a port; distinct = distinct (op line, result) pairs",
         "trusted": COMMON_TRUST + [
             "model Frp/Model/Router.lean, Frp/Model/Host.lean written by hand; tied by the router engine "
-            "(real vhost.Routers via HTTPReverseProxy.Register/UnRegister/GetRouteConfig and vhost.Muxer.Listen/getListener, CanonicalHost)",
+            "(real vhost.Routers via HTTPReverseProxy.Register/UnRegister/GetRouteConfig/ServeHTTP and vhost.Muxer.Listen/getListener, CanonicalHost)",
+            "model Frp/Model/VhostReg.lean (HTTPProxy/HTTPSProxy/TCPMuxProxy Run+Close, HTTPGroupController) written by hand; tied by the "
+            "vreg engine (real proxy.NewProxy(...).Run()/Close() on a real controller.ResourceController, requests through the real "
+            "HTTPReverseProxy.ServeHTTP, HTTPS muxer and tcpmux CONNECT muxer; which proxy instance is asked for a work connection)",
         ],
         "assumptions": [
             "strings.ToLower is modelled for ASCII only; non-ASCII hosts are counted and skipped",
             "keep-alive reuse of pooled backend connections is not covered by the router model",
+            "which member of an http load-balancing group serves a request is left open (any member agrees; rotation is C13); "
+            "tcpmux load-balancing groups (server/group/tcpmux.go) are not in the registration model",
+            "the registration model covers sequential Run/Close; their interleaving inside one Control is C10/C12",
         ],
     }
 
 META = {
-        "engine": "lean+harness(router)",
+        "engine": "lean+harness(router,vreg)",
         "design_ref": "DESIGN.md §6 C06",
         "technique": "Lean 4 invariant + refinement-to-spec proof over all add/del histories; differential correspondence with the real vhost.Routers / getVhost / Muxer.getListener",
-        "text": "Proof: for every reachable route table (any history of registrations/removals) and every host, path, user, the modelled lookup returns a registered matching route that is at least as specific (host pattern, then user restriction, then location length) as every other registered matching route, and none iff nothing matches; duplicates are refused leaving the table unchanged; removal affects only the removed triple. Kernel-checked, axioms propext/Classical.choice/Quot.sound only. The model is hand-written and tied to the code by replaying 20k (quick) generated operations per run on the real Routers/HTTPReverseProxy/Muxer and on the model, with the Lean property predicate evaluated on the implementation's own answers.",
-        "note": "Trusted: Lean kernel; the hand-written model of router.go/getVhost/getListener/CanonicalHost and the correspondence harness generators (ASCII hosts; non-ASCII skipped and counted). Not covered by the theorem: reuse of pooled keep-alive backend connections across re-registration (net/http Transport), the golib mux dispatch when the vhost port is shared with the control port.",
+        "text": "Proof: for every reachable route table (any history of registrations/removals) and every host, path, user, the modelled lookup returns a registered matching route that is at least as specific (host pattern, then user restriction, then location length) as every other registered matching route, and none iff nothing matches; duplicates are refused leaving the table unchanged; removal affects only the removed triple; every spelling of a plain host name (any letter case, optional trailing dot, optional port suffix) canonicalises to the lower-case name and is routed like it. The same holds through the server-side registration layer: for every history of proxy Run/Close (http with customDomains x locations + subdomain, group and non-group path with rollback, https, tcpmux) the route table is exactly the union of the live proxies' (domain, location, user) triples, a refused Run leaves the live set unchanged, Close removes exactly the proxy's own routes from the next lookup on, and every lookup hands the request to a live proxy whose route is the most specific live match. Kernel-checked, axioms propext/Classical.choice/Quot.sound only. The model is hand-written and tied to the code by replaying 20k (quick) generated operations per run on the real Routers/HTTPReverseProxy(ServeHTTP)/Muxer and 8k operations on real proxy.NewProxy Run/Close with real routed HTTP/TLS/CONNECT requests, and on the models, with the Lean property predicate evaluated on the implementation's own answers.",
+        "note": "Trusted: Lean kernel; the hand-written models of router.go/getVhost/getListener/CanonicalHost and of the Run/Close registration code (server/proxy/http.go, https.go, tcpmux.go, server/group/http.go) and the correspondence harness generators (ASCII hosts; non-ASCII skipped and counted). Not covered by the theorem: reuse of pooled keep-alive backend connections across re-registration (net/http Transport), the golib mux dispatch when the vhost port is shared with the control port.",
     }
